@@ -253,6 +253,14 @@ class MeshTet1(MeshSimplex, Mesh3D):
         split_edge = np.zeros((3, 8 * nv), dtype=np.int32)
         ns = 0
 
+        def grow(arr, n, fill=0):
+            """Enlarge the last axis; the initial sizes are not upper bounds."""
+            if n <= arr.shape[-1]:
+                return arr
+            out = np.full(arr.shape[:-1] + (2 * n,), fill, dtype=arr.dtype)
+            out[..., :arr.shape[-1]] = arr
+            return out
+
         while len(marked) > 0:
             nm = len(marked)
             tnew = np.zeros(nm, dtype=np.int32) - 1
@@ -280,6 +288,9 @@ class MeshTet1(MeshSimplex, Mesh3D):
                 )
                 nn = len(i)
                 nix = slice(ns, ns + nn)
+                p = grow(p, nv + nn)
+                split_edge = grow(split_edge, ns + nn)
+                nonconf = grow(nonconf, ns + nn, 1)
 
                 split_edge[0, nix] = i
                 split_edge[1, nix] = j
@@ -300,6 +311,8 @@ class MeshTet1(MeshSimplex, Mesh3D):
                 ns += nn
 
             # add new elements
+            t = grow(t, nt + nm)
+            orig = grow(orig, nt + nm)
             t[:, marked] = np.vstack((t3, t0, t2, tnew))
             t[:, nt:(nt + nm)] = np.vstack((t2, t1, t3, tnew))
             orig[nt:(nt + nm)] = orig[marked]
